@@ -235,3 +235,12 @@ package impl
 //@   requires rectangular-request: typeis(v2, "*model.TempoTag") ==> unbox(v2, "*model.TempoTag") != nil && !fresh(unbox(v2, "*model.TempoTag")) && rectTagsReq(unbox(v2, "*model.TempoTag")) && tagIdWidths(unbox(v2, "*model.TempoTag"))
 //@   check rectangular: result2 == nil ==> tagsRows(res, old(len(i64Col(res[5]).Data)) + len(tempTags.MTimestampNs))
 //@   check same-columns: result2 == nil ==> len(result1) == 7 && result1[0] == res[0] && result1[1] == res[1] && result1[2] == res[2] && result1[3] == res[3] && result1[4] == res[4] && result1[5] == res[5] && result1[6] == res[6]
+
+// The trace-attributes insert service is built with at least one worker, whatever worker
+// count is configured (zero or negative included; the other constructors carry the same
+// guard behind a plugin hook and are not under this contract): the round-robin front indexes the worker list in
+// the pusher goroutine, which has no recover - an empty list ends the process and leaves
+// every push in flight without an answer.
+//@ func NewTempoTagsInsertService [C01]
+//@   flag checks=-index,-assert
+//@   ensures at-least-one-worker: typeis(result, "*service.InsertServiceV2Multimodal") && unbox(result, "*service.InsertServiceV2Multimodal").SvcNum >= 1
